@@ -42,6 +42,14 @@ func (fr *frame) call(x *ssa.Call, st *state) {
 			}
 		}
 		if fn == nil {
+			// `binds <var> <key>`: the captured function variable holds the closure <key> over the same captured
+			// environment (a self-recursive closure calling itself through its own variable)
+			if bf, bclo := fr.boundClosure(com.Value); bf != nil {
+				g.usedAssumptions["captured function variable holds the closure named in the `binds` clause of "+fr.key+" (established where the enclosing function assigns it)"] = true
+				g.safety(fr, st, "nil-func-call", fr.srcAnchor(x.Pos(), isCall, "call"), x.Pos(), "(not (= "+v.S+" 0))")
+				fr.callInternal(x, bf, bclo, args, st)
+				return
+			}
 			fr.dynamicCall(x, v, args, st)
 			return
 		}
@@ -569,6 +577,17 @@ func (fr *frame) isOperatorSig(sig *types.Signature) bool {
 // (not in inlined callees, whose own contracts would carry such clauses).
 func (fr *frame) callSiteObligations(x *ssa.Call, v *Term, args []*Term, st *state) {
 	fr.callSiteObligationsFor("", x, v, args, st)
+	// [dyn:<name>:label]: calls through the captured / local function variable <name>
+	if ld, ok := x.Common().Value.(*ssa.UnOp); ok && ld.Op == token.MUL {
+		switch c := ld.X.(type) {
+		case *ssa.FreeVar:
+			fr.callSiteObligationsFor("dyn:"+c.Name(), x, v, args, st)
+		case *ssa.Alloc:
+			if c.Comment != "" {
+				fr.callSiteObligationsFor("dyn:"+c.Comment, x, v, args, st)
+			}
+		}
+	}
 }
 
 // callSiteObligationsFor: target "" = calls through function values (label without ':'); otherwise the clauses
@@ -593,7 +612,7 @@ func (fr *frame) callSiteObligationsFor(target string, x *ssa.Call, v *Term, arg
 	anchor := fr.srcAnchor(x.Pos(), isCall, "call")
 	for _, c := range g.con.CallSites {
 		ct := ""
-		if i := strings.Index(c.Label, ":"); i >= 0 {
+		if i := strings.LastIndex(c.Label, ":"); i >= 0 {
 			ct = c.Label[:i]
 		}
 		if ct != target {
@@ -607,4 +626,43 @@ func (fr *frame) callSiteObligationsFor(target string, x *ssa.Call, v *Term, arg
 		}
 		g.addObl(fr, st, "callsite", c.Label+":"+anchor, "callsite", x.Pos(), cond)
 	}
+}
+
+// boundClosure resolves a call through a captured function variable named in a `binds` clause.
+func (fr *frame) boundClosure(v ssa.Value) (*ssa.Function, *Closure) {
+	if fr.con == nil || len(fr.con.Binds) == 0 {
+		return nil, nil
+	}
+	ld, ok := v.(*ssa.UnOp)
+	if !ok || ld.Op != token.MUL {
+		return nil, nil
+	}
+	fv, ok := ld.X.(*ssa.FreeVar)
+	if !ok {
+		return nil, nil
+	}
+	key, ok := fr.con.Binds[fv.Name()]
+	if !ok {
+		return nil, nil
+	}
+	fn := fr.g.P.Lookup(key)
+	if fn == nil {
+		fr.g.rejectf("binds: no such function %s", key)
+		return nil, nil
+	}
+	clo := &Closure{Fn: fn}
+	for _, want := range fn.FreeVars {
+		var b *Term
+		for _, have := range fr.fn.FreeVars {
+			if have.Name() == want.Name() {
+				b = fr.val(have)
+			}
+		}
+		if b == nil {
+			fr.g.rejectf("binds: %s captures %s which %s does not", key, want.Name(), fr.key)
+			return nil, nil
+		}
+		clo.Bindings = append(clo.Bindings, b)
+	}
+	return fn, clo
 }
